@@ -1249,6 +1249,12 @@ class Generator():
                 [true_type, false_type],
                 tmp_t
             )
+            # The fold keeps the last type that is not a subtype of the
+            # accumulator: when the drawn types are unrelated, the result is
+            # not a supertype of both branches. `etype` always is.
+            if not (true_type.is_subtype(cond_type) and
+                    false_type.is_subtype(cond_type)):
+                cond_type = etype
         else:
             true_type, false_type, cond_type = etype, etype, etype
         true_expr = self.generate_expr(true_type, only_leaves, subtype=False)
